@@ -62,9 +62,21 @@ VP_HARNESS (c04_pred_objects)
   pred_or po {std::make_unique <P_fixed> (a), std::make_unique <P_fixed> (b)};
   vp_assert (pa.result (sc, stk) == (a && b), "pred_and = &&");
   vp_assert (po.result (sc, stk) == (a || b), "pred_or = ||");
-  // maybe_invert: positive keeps the predicate, negative wraps it in a negation
-  bool positive = vp_nondet_bool ();
-  auto mi = maybe_invert (std::make_unique <P_fixed> (a), positive);
-  pred_result rm = mi->result (sc, stk);
-  vp_assert (rm == (positive ? a : !a), "maybe_invert (positive) = X, (negative) = !X");
 }
+
+// maybe_invert: positive keeps the predicate, negative wraps it in a negation
+template <bool POSITIVE> static inline void
+h_invert ()
+{
+  pred_result a = nd_result ();
+  scon &sc = reinterpret_cast <scon &> (*(char *) 64);
+  stack &stk = reinterpret_cast <stack &> (*(char *) 128);
+  auto mi = maybe_invert (std::make_unique <P_fixed> (a), POSITIVE);
+  pred_result rm = mi->result (sc, stk);
+  vp_assert (rm == (POSITIVE ? a : !a), "maybe_invert (positive) = X, (negative) = !X");
+  bool holds = rm == pred_result::yes;
+  if (a == pred_result::fail)
+    vp_assert (!holds, "an erroring X makes neither ?X nor !X hold");
+}
+VP_HARNESS (c04_invert_pos) { h_invert <true> (); }
+VP_HARNESS (c04_invert_neg) { h_invert <false> (); }
